@@ -549,6 +549,27 @@ class Tokenizer:
 
         return self.as_string(self.get().unescape(), max_length)
 
+    def get_string_as_bytes(self, max_length: int | None = None) -> bytes:
+        """Read the next token and interpret it as a character-string of octets.
+
+        ``\\DDD`` escapes denote octet values (RFC 1035 section 5.1), so that the
+        text form produced by ``dns.rdata._escapify()`` reads back as the same bytes;
+        unescaped non-ASCII characters are encoded as UTF-8.
+
+        Raises dns.exception.SyntaxError if not a string.
+        Raises dns.exception.SyntaxError if the number of octets
+        exceeds max_length (if specified).
+
+        Returns a bytes.
+        """
+
+        token = self.get().unescape_to_bytes()
+        if not (token.is_identifier() or token.is_quoted_string()):
+            raise dns.exception.SyntaxError("expecting a string")
+        if max_length and len(token.value) > max_length:
+            raise dns.exception.SyntaxError("string too long")
+        return token.value
+
     def get_identifier(self) -> str:
         """Read the next token, which should be an identifier.
 
